@@ -82,7 +82,7 @@ func splitWord(segs []int, variant string, env *interp.ExecEnv) ast.Word {
 			if variant == "arith" && c == "1" {
 				// the digit comes out of an arithmetic expansion
 				w = append(w, &ast.ArithExp{Expr: ast.Word{&ast.Lit{Value: "3 - 2"}}})
-			} else if variant != "lit" {
+			} else if variant == "var" || variant == "arith" {
 				name := fmt.Sprintf("v%d", id)
 				env.Set(name, c)
 				w = append(w, &ast.ParamExp{Name: &ast.Lit{Value: name}, Braces: i%2 == 0})
